@@ -58,10 +58,10 @@ def judge20(world):
             files = sorted({f for f, _, _ in evs})
             if data in out:
                 return (("raw-leak", "value %r emitted raw although %s is in effect for %r; output %r"
-                         % (data, fn, files, out)), exp, real)
+                         % (data, fn, files, out), files), exp, real)
             if esc is not None and exp["kind"] == "ok" and b"K" in data and out.count(esc) != len(evs):
                 return (("escaped-count", "escaped form %r occurs %d times, emitted %d times; output %r"
-                         % (esc, out.count(esc), len(evs), out)), exp, real)
+                         % (esc, out.count(esc), len(evs), out), files), exp, real)
     return v, exp, real
 
 
@@ -235,6 +235,8 @@ class C20(Check):
         "the five special characters and a marker",
     ]
 
+    _named = {}
+
     def partitions(self, tier):
         return [(fam, p) for fam in FAMILIES for p in range(NPARTS)]
 
@@ -266,8 +268,21 @@ class C20(Check):
             st.sample({"family": fam, "sources": {n: fs.src for n, fs in exp["rend"].items()},
                        "lkw": w["lkw"], "vals": w["vals"], "output": repr(real[1])})
         if v is not None:
-            sig, small = T.name_violation(w, v[0], judge20)
+            key = (v[0], T.world_skeleton(w))
+            if key not in self._named:         # shrink once per structural class
+                self._named[key] = T.name_violation(w, v[0], judge20)
+            sig, small = self._named[key]
             v2, exp2, real2 = judge20(small)
+            if v2 is not None and len(v2) > 2:
+                # escaping verdicts: name them by the role and shape of the file
+                # that contains the wrongly rendered tag only
+                roles = T.file_roles(small)
+                parts = []
+                for f in v2[2]:
+                    paths = set()
+                    T._paths(small["files"][f], "", paths)
+                    parts.append("%s{%s}" % (roles[f], ",".join(sorted(paths))))
+                sig = v2[0] + ":" + ";".join(sorted(parts))
             msg = "%s | %s" % (v2[1] if v2 else v[1], T.describe(small, exp2).replace("\n", " "))
             st.violation(sig, msg[:700], {"world": small, "family": fam})
 
